@@ -325,6 +325,93 @@ def check_inverses(F, rep, S):
                         sample="%s∘%s normalises to the identity on non-degenerate colours" % (short(x) + "<-" + short(y), short(y) + "<-" + short(x)))
 
 
+# direct hand-written edge (a -> c) next to a hand-written two-hop path (a -> b -> c)
+TRIANGLES = [
+    ("luma::luma::Luma", "xyz::Xyz", "yxy::Yxy"),
+    ("luma::luma::Luma", "yxy::Yxy", "xyz::Xyz"),
+    ("xyz::Xyz", "yxy::Yxy", "luma::luma::Luma"),
+    ("yxy::Yxy", "xyz::Xyz", "luma::luma::Luma"),
+]
+
+
+def _with_unit_luminance(S, v):
+    """Substitute wp.y = 1 (every white point is normalised to Y = 1: CONST-WP)."""
+    wy = S.ctx.sym("wp.y")
+    (mono, _c), = wy.num.items()
+    (aid, _e), = mono
+    if isinstance(v, RatFunc):
+        return alg.deep_subst(v, {aid: 1}, S.ctx)
+    if isinstance(v, Struct):
+        return Struct(v.path, {k: _with_unit_luminance(S, x) for k, x in v.fields.items()})
+    if isinstance(v, Tuple):
+        return Tuple([_with_unit_luminance(S, x) for x in v.items])
+    raise Opaque("case split left after assuming non-degenerate colours: %s" % alg._short(v, 120))
+
+
+def check_commute(F, rep, S):
+    """COMMUTE: where a direct hand-written conversion a -> c exists beside a hand-written path a -> b -> c, the two agree (on non-degenerate
+    colours, for a white point normalised to Y = 1).  The derived routes never contain such a choice (ROUTE), these four triangles do."""
+    impls = conv_impls(F)
+    n = 0
+    for a, b, c in TRIANGLES:
+        key = "%s→%s = %s→%s→%s" % (short(a), short(c), short(a), short(b), short(c))
+        f1, f2, g = impls.get((b, a), []), impls.get((c, b), []), impls.get((c, a), [])
+        if len(f1) != 1 or len(f2) != 1 or len(g) != 1:
+            rep.fail("ANCHOR", "commute:" + key, "hand-written edges of the triangle not found")
+            continue
+        n += 1
+        try:
+            args = S.args(g[0][1], ["c"])
+            direct, _ = S.ev.eval_body(g[0][1], args)
+            mid, _ = S.ev.eval_body(f1[0][1], args)
+            via, _ = S.ev.eval_body(f2[0][1], [mid])
+            direct, via = assume_valid(direct), assume_valid(via)
+        except (Opaque, poly.TooBig, ZeroDivisionError) as ex:
+            rep.fail("COMMUTE", key, "uninterpretable: %s" % ex, F.loc(g[0][1]))
+            continue
+        try:
+            direct, via = _with_unit_luminance(S, direct), _with_unit_luminance(S, via)
+        except Opaque as ex:
+            rep.fail("COMMUTE", key, "uninterpretable: %s" % ex, F.loc(g[0][1]))
+            continue
+        check_value(rep, "COMMUTE", key, S, g[0][1], direct, via,
+                    sample="direct and two-hop conversion normalise to the same value (wp.y = 1, non-degenerate colours)")
+    rep.floor("commuting triangles", n, 4)
+
+
+def check_polar_inverses(F, rep):
+    """Rectangular <-> polar pairs (Lab/Lch, Luv/Lchuv, Oklab/Oklch, CAM16-UCS Jab/Jmh) invert each other, using the trigonometric axioms
+    cos^2 + sin^2 = 1, cos/sin(atan2(y, x)) = x, y / sqrt(x^2 + y^2), atan2(r sin t, r cos t) = t (r > 0, mod 2 pi), the pi shift, and
+    deg2rad / rad2deg being inverse; chroma > 0 and (a, b) != (0, 0) (the non-degenerate colours); hue equality is modulo 360 degrees."""
+    from . import c02
+    impls = conv_impls(F)
+    n = 0
+    for polar, rect, _huety, _fa, _fb, _keep, chroma, _ph in c02.POLAR:
+        for x, y in ((polar, rect), (rect, polar)):
+            key = "%s→%s→%s" % (short(x), short(y), short(x))
+            f = impls.get((y, x), [])
+            g = impls.get((x, y), [])
+            if len(f) != 1 or len(g) != 1:
+                rep.fail("ANCHOR", "inverse:" + key, "hand-written pair not found")
+                continue
+            S = Session(F, app_canon=c02.app_canon)
+            S.ctx.trig_axioms = True
+            S.ctx.expand_minmax = True
+            fb, gb = f[0][1], g[0][1]
+            try:
+                args = S.args(fb, ["c"])
+                S.ctx.positive = {a for a in atoms_of(args[0]) if a.endswith("." + chroma)}
+                mid, _ = S.ev.eval_body(fb, args)
+                back, _ = S.ev.eval_body(gb, [mid])
+            except (Opaque, poly.TooBig, ZeroDivisionError) as ex:
+                rep.fail("ALG-LAW", "inverse:" + key, "uninterpretable: %s" % ex, F.loc(gb))
+                continue
+            check_value(rep, "ALG-LAW", "inverse:" + key, S, gb, back, args[0],
+                        sample="identity on non-degenerate colours (trigonometric axioms; hue modulo 360)")
+            n += 1
+    rep.floor("polar inverse laws", n, 8)
+
+
 # ---------------------------------------------------------------------------- alpha
 def check_alpha(F, rep, S):
     # impl FromColorUnclamped<C1> for Alpha<C2, T>
@@ -388,8 +475,14 @@ def run(F, rep, tier="quick", extra=None, only=None):
     check_routes(F, rep, SO)
     check_guards(F, rep, S)
     check_inverses(F, rep, S)
+    check_polar_inverses(F, rep)
+    check_commute(F, rep, S)
     check_alpha(F, rep, SO)
     # matrix pairs: every hard-coded pair is a mutual inverse (shared with C02/C14)
     consts.check_rgb_spaces(F, rep, S)
     consts.check_oklab_matrices(F, rep, S)
+    # transfer functions: every Rgb <-> Xyz round trip passes through encode/decode; an unclamped conversion of an in-range colour of a wider
+    # space hands them negative and > 1 values, so the pair has to be inverse on the whole real line: both are compared, piece by piece, with
+    # the published pair (which is mutually inverse with the linear segment extended through the origin)
+    consts.check_transfer_functions(F, rep, S)
     return {"level": "other"}
